@@ -109,7 +109,7 @@ func init() {
 	register(&Prop{
 		ID:    "C07",
 		Level: "model_checking",
-		Rule: "bounded-exhaustive table against the reference definitions: for each measure, every ordered pair of column pairs ((x1,y1),(x2,y2)) over the 17-symbol alphabet (83 521 sequence pairs) appended to a 12-column backbone containing all four bases, one transition and one transversion (289 targets per call, read back from `closest -n 289 --table`), with the target in upper, lower and mixed case; plus 289 single-target calls per measure in sequence (history independence), all 289 single-column pairs and all 289^2/… two-column pairs without backbone for raw/snp. " +
+		Rule: "bounded-exhaustive table against the reference definitions: for each measure, every ordered pair of column pairs ((x1,y1),(x2,y2)) over the 17-symbol alphabet (83 521 sequence pairs) appended to a 12-column backbone containing all four bases, one transition and one transversion (289 targets per call, read back from `closest -n 289 --table`), with the target in upper, lower and mixed case; thorough adds a third variable column over {A,C,G,T,R,N,-} in both rows (83 521 x 49 pairs) on two backbones; plus 289 single-target calls per measure in sequence (history independence), all 289 single-column pairs and all 289^2/… two-column pairs without backbone for raw/snp. " +
 			"A case is one (measure, query, target); non-trivial = the definition gives a defined distance (pairs whose raw distance is 0/0 or whose tn93 logarithms/frequencies are undefined are run but not judged); each generated once",
 		Assumptions: []string{
 			"tn93: Tamura & Nei 1993 eq. 7 over columns where both are A/C/G/T, base frequencies from the target's A/C/G/T counts; compared numerically with |delta| <= 1.5e-9 (9 printed decimals)",
